@@ -12,6 +12,7 @@ import (
 	"os"
 	"os/exec"
 	"sort"
+	"strings"
 	"sync"
 	"time"
 
@@ -99,6 +100,7 @@ type sScript struct {
 	Init    []sView `json:"init"`
 	Steps   []sStep `json:"steps"`
 	Crashed bool    `json:"crashed,omitempty"`
+	Verify  int     `json:"verify_mismatches"`
 	Key     string  `json:"key"`
 }
 
@@ -125,7 +127,7 @@ func (s *sScript) val() string {
 		}
 		steps[i] = vL(op, vI(t.Reply), vL(pubs...), vS(t.Root), vL(dump...))
 	}
-	return vL(vS(s.Root0), vL(init...), vL(steps...))
+	return vL(vS(s.Root0), vL(init...), vL(steps...), vI(s.Verify))
 }
 
 func (s *sScript) digest() string {
@@ -271,15 +273,45 @@ func storeRunScript(s *sScript) error {
 		}
 		s.Steps = append(s.Steps, step)
 	}
+	// a store verification at the end must find nothing to repair (it only logs what it finds)
+	storeLog.reset()
+	if msg, err := nc.Request("admin.storeVerify", nil, 20*time.Second); err != nil || len(msg.Data) > 0 {
+		s.Verify = 1000
+	} else {
+		s.Verify = storeLog.count("Hash failed")
+	}
 	return nil
 }
+
+// logCounter captures the log output of the in-process store
+type logCounter struct {
+	mu  sync.Mutex
+	buf []byte
+}
+
+func (l *logCounter) Write(p []byte) (int, error) {
+	l.mu.Lock()
+	if len(l.buf) < 1<<20 {
+		l.buf = append(l.buf, p...)
+	}
+	l.mu.Unlock()
+	return len(p), nil
+}
+func (l *logCounter) reset() { l.mu.Lock(); l.buf = nil; l.mu.Unlock() }
+func (l *logCounter) count(s string) int {
+	l.mu.Lock()
+	defer l.mu.Unlock()
+	return strings.Count(string(l.buf), s)
+}
+
+var storeLog = &logCounter{}
 
 // ---- worker processes: a script that kills or wedges the instance must not take the harness down ----
 
 func init() { areas["store-worker"] = runStoreWorker }
 
 func runStoreWorker(_ *config) error {
-	log.SetOutput(io.Discard)
+	log.SetOutput(storeLog)
 	in := bufio.NewReaderSize(os.Stdin, 1<<20)
 	out := bufio.NewWriter(os.Stdout)
 	dec := json.NewDecoder(in)
